@@ -246,6 +246,8 @@ C07 = dict(
         "c07_torn_entry_over_stale_k8": _OP("entry append torn after 8 bytes over a stale entry: ignored"),
         "c07_torn_entry_over_stale_k40": _OP(tier="thorough", desc="entry append torn after 40 bytes over a stale entry: ignored"),
         "c07_torn_entry_over_stale_k148": _OP("entry append torn after 148 bytes over a stale entry: ignored"),
+        "c07_open_slot0_torn_slot1_bit1": _OP("header write into slot 0 torn, slot 1 valid (bit 1): falls back to slot 1, header bits [0,1], the pending entry with bit 1 is replayed, the log continues with bit 1"),
+        "c07_open_slot0_torn_slot1_bit0": _OP("header write into slot 0 torn, slot 1 valid (bit 0): header bits [1,0], pending entry with bit 1 replayed", tier="thorough"),
     },
 )
 PROPS["C07"] = C07
@@ -426,6 +428,8 @@ C05["harnesses"].update({
     "c05_node_store_layout_i5": _T("tree store layout: flush() writes node 5 at byte 200 as LE64(length) || hash (after a pending truncation at 40*(2*len-1)); index_from_info / node_from_bytes read it back", "length full u64, 32 hash bytes, truncation flag and length < 2^40, byte position", "one node per flush", timeout=2400, tier="thorough", memloop=True),
     "c05_node_store_layout_i0": _T("same for node 0 at byte 0", "length full u64, 32 hash bytes, truncation flag and length < 2^40, byte position", "one node per flush", timeout=900, tier="thorough"),
 })
+C06["groups"] = [dict(variant="model", patterns=["c06_", "c07_open_slot0_torn_slot1_bit1"])]
+C06["harnesses"]["c07_open_slot0_torn_slot1_bit1"] = C07["harnesses"]["c07_open_slot0_torn_slot1_bit1"]
 # (the node-store harness runs out of solver memory in this sandbox: thorough tier only, not shared with C06)
 C05["harnesses"]["c02_replay_truncate_merges_roots"] = C02["harnesses"]["c02_replay_truncate_merges_roots"]
 C09["harnesses"].update({
